@@ -109,61 +109,68 @@ def make_pyvis_net(
         network_kwargs = {"cdn_resources": "local"}
     net = network.Network(**network_kwargs)
     verts = list(uni.vertices)
-    for i, vert in enumerate(verts):
-        if rvfunc:
-            net.add_node(i, label=rvfunc(vert))
-        else:
-            net.add_node(i, label=hex(id(vert)))
+    try:
+        for i, vert in enumerate(verts):
+            if rvfunc:
+                net.add_node(i, label=rvfunc(vert))
+            else:
+                net.add_node(i, label=hex(id(vert)))
 
-        # store a temporary attribute on the object that we will use for fast
-        # lookup of this vertex's index later on
-        # pylint: disable-next=protected-access
-        vert.__make_pyvis_net_i = i
+            # store a temporary attribute on the object that we will use for
+            # fast lookup of this vertex's index later on
+            # pylint: disable-next=protected-access
+            vert.__make_pyvis_net_i = i
 
-    for i, vert in enumerate(verts):
-        for edge in vert.links:
+        for i, vert in enumerate(verts):
+            for edge in vert.links:
 
-            # only draw arrows when we're at the *from* node
-            # (a self-loop has the same vertex at both ends and is drawn here)
-            if vert is edge.v2 and vert is not edge.v1:
-                continue
+                # only draw arrows when we're at the *from* node
+                # (a self-loop has the same vertex at both ends and is drawn
+                # here)
+                if vert is edge.v2 and vert is not edge.v1:
+                    continue
 
-            other = edge.other(vert)
-            try:
-                # this is *much* faster than something like verts.index(other)
-                # pylint: disable-next=protected-access
-                j = other.__make_pyvis_net_i
-            except AttributeError:
-                # not a member
-                continue
+                other = edge.other(vert)
+                try:
+                    # this is *much* faster than something like
+                    # verts.index(other)
+                    # pylint: disable-next=protected-access
+                    j = other.__make_pyvis_net_i
+                except AttributeError:
+                    # not a member
+                    continue
 
-            # pyvis doesn't directly offer an argument in the add_edge() method
-            # to specify if the arrow is directed or not.  rather, its edge
-            # class is instantiated internally using the net.directed (as it
-            # would know, self.directed) attribute.  therefore, by toggling
-            # that attribute just before we create the edge, we can control the
-            # directed-ness of the edge
-            net.directed = issubclass(type(edge), DirectedEdge)
+                # pyvis doesn't directly offer an argument in the add_edge()
+                # method to specify if the arrow is directed or not.  rather,
+                # its edge class is instantiated internally using the
+                # net.directed (as it would know, self.directed) attribute.
+                # therefore, by toggling that attribute just before we create
+                # the edge, we can control the directed-ness of the edge
+                net.directed = issubclass(type(edge), DirectedEdge)
 
-            try:
-                if refunc:
-                    net.add_edge(i, j, title=refunc(edge))
-                else:
-                    net.add_edge(i, j)
-            except AssertionError:
-                # AssertionError is raised by pyvis module if trying to link to
-                # a non-existent vertex (node).  this should be exceedingly
-                # rare in the wild, but can be triggered if a vertex already
-                # has the ``__make_pyvis_net_i`` attribute that we didn't add
-                # in this function (i.e. it carried it in).
-                #
-                # the effect of this is that the node we're trying to link to
-                # doesn't exist, so skip it.
-                continue
+                try:
+                    if refunc:
+                        net.add_edge(i, j, title=refunc(edge))
+                    else:
+                        net.add_edge(i, j)
+                except AssertionError:
+                    # AssertionError is raised by pyvis module if trying to
+                    # link to a non-existent vertex (node).  this should be
+                    # exceedingly rare in the wild, but can be triggered if a
+                    # vertex already has the ``__make_pyvis_net_i`` attribute
+                    # that we didn't add in this function (i.e. it carried it
+                    # in).
+                    #
+                    # the effect of this is that the node we're trying to link
+                    # to doesn't exist, so skip it.
+                    continue
 
-    # make sure we remove our temporary attribute
-    for vert in verts:
-        del vert.__make_pyvis_net_i
+    finally:
+        # make sure we remove our temporary attribute, also when a render
+        # function raised; vertices the first loop did not reach do not have it
+        for vert in verts:
+            if "__make_pyvis_net_i" in vars(vert):
+                del vert.__make_pyvis_net_i
 
     return net
 
